@@ -48,6 +48,16 @@ def run(ctx, F, cg):
     ctx.rule("R02f", "(index independence) property-index maintenance never removes the old entry after inserting the new one within one pass: when old == new that drops the node from the index while a scan still finds it")
     sr.direction_coherence(ctx, F, cg, "R02e")
     sr.remove_before_insert(ctx, F, cg, "R02f", pairs=(("index_insert", "index_remove"),))
+    ctx.rule("R02g", "(parallel-filter independence) the filter's parallel and sequential paths treat a failing predicate alike: no evaluation error is dropped in a filtering operator (dropping it turns 'the query fails' into 'the row does not match' only when the batch is large enough to go parallel)")
+    from .c35 import error_discard_sites, SORT_KEY_SITES
+    sites = [x for x in error_discard_sites(F) if not any(k in x[0] for k in SORT_KEY_SITES)]
+    filt = [r_ for p_, r_ in F.fns.items() if "FilterOperator" in p_ and p_.endswith("::next_batch")]
+    ctx.floor("R02g", "FilterOperator::next_batch bodies", len(filt), 1)
+    if sites:
+        for owner, callee, how, r_, line in sites:
+            ctx.violation("R02g", "%s|%s|%s|error-dropped" % (owner, callee, how), where(r_, line), "%s drops the error of %s (%s): with a predicate that fails on some row the answer depends on whether this path or the error-propagating one is taken (batch size, SAMYAMA_FILTER_PARALLEL_COST)" % (owner, callee, how))
+    else:
+        ctx.ok("R02g", "no-dropped-evaluation-error", "no evaluation error is dropped outside the reviewed sort-key sites")
     ctx.rule("R06a", "(shared with C06) the compacted tier answers as the write buffer does: deletion covers every representation")
     pairing.matrix(ctx, F, cg, "R02a", "property-index", ["IndexManager::index_insert"], ["IndexManager::index_remove"],
                    ["prop-set", "prop-kill", "label-kill", "node-kill"],
